@@ -46,7 +46,7 @@ def mandatory_bins(tier):
     b = ["len_mod16_%d" % i for i in range(16)] + ["trailing_zeros_%d" % z for z in range(18)]
     b += ["all_zero_content", "via_set_config", "via_direct_construction", "framing_bf3", "framing_bec2", "needle_scan", "needle_session_key", "needle_security_code",
           "needle_customer_key", "needle_plaintext_block", "key_ends_00", "default_key", "cipher_unregistered", "cipher_fails_at_call", "cipher_fails_at_first_call",
-          "cipher_fails_at_last_call", "fault_stream", "fault_path", "read_back_with_key", "long_content", "content_longer_than_1024", "rewrite_after_content_change", "rewrite_after_in_place_content_change", "set_config_over_preexisting_plain_configuration", "target_is_a_file_name", "read_back_without_mac_check", "rewrite_of_a_read_back_object", "rewrite_under_another_key", "marked_for_encryption_after_construction", "unusable_key_given_explicitly"]
+          "cipher_fails_at_last_call", "fault_stream", "fault_path", "read_back_with_key", "long_content", "content_longer_than_1024", "rewrite_after_content_change", "rewrite_after_in_place_content_change", "set_config_over_preexisting_plain_configuration", "target_is_a_file_name", "read_back_without_mac_check", "rewrite_of_a_read_back_object", "rewrite_under_another_key", "marked_for_encryption_after_construction", "unusable_key_given_explicitly", "several_encrypted_components", "encrypted_component_not_last"]
     return b
 
 
@@ -324,6 +324,60 @@ def check_case(ns, ctx, content, declared, key, framing, via, specs, conf, rp):
             ctx.violation("second_write_of_changed_object_stores_" + ("the_previous_ciphertext" if stale else "wrong_ciphertext"), {"len_old": len(content), "len_new": len(new_content)}, rp)
 
 
+def check_multi(ns, ctx, rng, key, framing, specs):
+    """several session-key encrypted components in one file, in any position (first, between plain ones, last): each is stored
+    as the CBC ciphertext of ITS content (fresh chain, zero IV) and reads back as its content"""
+    BF, B = ns.bf3file, ns.bec2file
+    layout = rng.choice(("EPE", "EEP", "PEEP", "EP", "EEE", "PEPE"))
+    comps = []
+    for ch in layout:
+        ln = rng.choice((1, 15, 16, 17, 32, 40, 100))
+        blob = rng.randbytes(ln)
+        if ch == "E":
+            comps.append(MComp([(0xC3, b"\x02"), (0xC2, b"\x02"), (1, bytes((len(comps),)))], blob, ln, True))
+        else:
+            comps.append(MComp([(0xC3, b"\x02"), (1, bytes((len(comps),)))], blob, ln, False))
+    mcase = G.Case([("FirmwareId", "1100")], comps)
+    rp = {"kind": "multi", "layout": layout, "key": key.hex(), "framing": framing, "case": mcase.to_json(), "specs": GB.spec_json(specs) if specs else None}
+    ctx.ev()
+    ctx.bin("several_encrypted_components")
+    if layout[-1] != "E":
+        ctx.bin("encrypted_component_not_last")
+    ctx.distinct("multi", layout, key, framing, mcase.digest_parts())
+    f = G.build_real(ns, mcase)
+    buf = io.StringIO()
+    try:
+        if framing == "bf3":
+            f.write_file(buf, key)
+        else:
+            B.Bec2File(f, GB.real_auth_blocks(ns, specs), key).write_file(buf, GB.write_encryptors(ns, specs))
+        text = buf.getvalue()
+        _, binary = L.parse_text(text)
+        ents = L.parse_bf3(binary, key) if framing == "bf3" else L.parse_body(binary, L.parse_bec2_header(binary)[1], key)
+    except Exception as e:
+        ctx.violation("writer_raises_on_object_in_domain" if not isinstance(e, L.LayoutError) else "written_file_not_parsable_by_model:" + e.rule, {"exc": fmt_exc(e), "layout": layout}, rp)
+        return
+    ctx.mon("stored_payload_vs_openssl", layout.count("E"))
+    for i, (c, e) in enumerate(zip(comps, ents)):
+        if e.payload != c.stored(key):
+            ctx.violation("stored_payload_is_not_cbc_ciphertext_of_padded_content:component_%s_of_%s" % ("first" if i == 0 else "last" if i == len(comps) - 1 else "middle", layout) if c.encrypted else "plain_component_stored_differently", {"index": i, "layout": layout}, rp)
+            return
+    for cm in (True, False):
+        try:
+            if framing == "bf3":
+                back = BF.Bf3File.read_file(io.StringIO(text), cm, key)
+            else:
+                back = B.Bec2File.read_file(io.StringIO(text), GB.read_encryptors(ns, specs), cm).bf3file
+            ctx.mon("read_file")
+        except Exception as e:
+            ctx.violation("reader_rejects_file_written_by_writer", {"exc": fmt_exc(e), "layout": layout, "mac_check": cm}, rp)
+            return
+        d = G.diff_file(back, mcase)
+        if d:
+            ctx.violation("read_back_differs:" + d[0].split("[")[0], {"diff": d, "layout": layout, "mac_check": cm}, rp)
+            return
+
+
 class Fault(Exception):
     pass
 
@@ -516,13 +570,17 @@ def run_shard(spec, ctx):
         rp = {"kind": "enc", "content": content.hex(), "declared": declared, "key": key.hex(), "framing": framing, "via": via, "specs": GB.spec_json(specs) if specs else None,
               "conf": [[k, v, c.hex()] for (k, v), c in conf.items()] if conf else None}
         check_case(ns, ctx, content, declared, key, framing, via, specs, conf, rp)
+        if idx % 4 == 1:
+            check_multi(ns, ctx, rng, key, framing, specs)
         if j == 0:
             ctx.sample({k: rp[k] for k in ("content", "declared", "key", "framing", "via")})
 
 
 def replay(rec, ctx):
     ns = load()
-    if rec["kind"] == "enc":
+    if rec["kind"] == "multi":
+        check_multi(ns, ctx, ctx.rng, bytes.fromhex(rec["key"]), rec["framing"], GB.spec_from_json(rec["specs"]) if rec.get("specs") else None)
+    elif rec["kind"] == "enc":
         conf = {(k, v): bytes.fromhex(c) for k, v, c in rec["conf"]} if rec.get("conf") else None
         check_case(ns, ctx, bytes.fromhex(rec["content"]), rec["declared"], bytes.fromhex(rec["key"]), rec["framing"], rec["via"], GB.spec_from_json(rec["specs"]) if rec.get("specs") else None, conf, rec)
     else:
